@@ -605,4 +605,12 @@ def _lz(mod, fn, rid):
     return run
 
 # the link ends on the box only if the box is where the layer geometry puts it (C08.GEOMETRY); the caller's options must reach the drawing
-RULES = [normalise, one_each, init_order, export_calls, pipeline, scale_flow, axis, dots, link, boxsize, c09_ticks, c09_labels, _lz("c08", "geometry", "C08.GEOMETRY"), _lz("c08", "positive_size", "C08.POSITIVE-SIZE"), _lz("c11", "timeline_opts", "GEN.OPTS-MERGE"), _lz("c09", "link", "C09.LINK")]
+def _datumkeys(ctx, R):
+    # the default accessors read the caller's datum: a text that is there is used, a missing one is no error
+    from .crash import datumkeys
+    return datumkeys(ctx, R)
+
+
+_datumkeys.rule_id = "C11.DATUMKEYS"
+
+RULES = [normalise, one_each, init_order, export_calls, pipeline, scale_flow, axis, dots, link, boxsize, c09_ticks, c09_labels, _lz("c08", "geometry", "C08.GEOMETRY"), _lz("c08", "positive_size", "C08.POSITIVE-SIZE"), _lz("c11", "timeline_opts", "GEN.OPTS-MERGE"), _lz("c09", "link", "C09.LINK"), _datumkeys]
